@@ -7,6 +7,7 @@
    wall-clock time (the 15 minute cadence is checked on a virtual clock). *)
 From Coq Require Import List NArith ZArith Bool String.
 From AMS Require Import Models Lifecycle LifecycleFacts.
+From AMS Require Import Mqtt MqttFacts.
 Import ListNotations.
 
 (* for EVERY schedule — schedules contain re-entries of the same object (CReenter)
@@ -71,6 +72,34 @@ Theorem C16_save_completes :
     l_s s3 = SSleeping /\ l_file s3 = FHolds v /\ l_saves s3 = S (l_saves s).
 Proof. exact save_completes. Qed.
 Print Assumptions C16_save_completes.
+
+(* "If connecting fails ... no background task is left behind", for the built-in MQTT
+   transport kind (the stream kinds start no task in connect): at every fault position of
+   connect — the broker refuses the connection, or any subset of the subscriptions fails —
+   a failed connect ends with no receive task and with the broker client's context left as
+   often as it was entered; a successful one has the task and every subscription.  (The
+   pinned tree left the receive task running when a subscription failed: repaired by
+   4fccfdf; the model follows the repaired code and is compared with it in c16.py.) *)
+Theorem C16_mqtt_connect_no_leftover :
+  forall pre enter_fails sub_faults,
+    let r := mqtt_connect pre enter_fails sub_faults mc_init in
+    match snd r with
+    | ConnOk => mc_task (fst r) = true /\ mc_client (fst r) = true /\ mc_entered (fst r) = 1%Z
+                /\ mc_subs (fst r) = subscriptions pre
+                /\ enter_fails = false
+                /\ forallb negb (firstn (List.length (subscriptions pre)) sub_faults) = true
+    | ConnTransportError => mc_task (fst r) = false /\ mc_entered (fst r) = 0%Z
+    | ConnRuntimeError => False
+    end.
+Proof. exact connect_no_leftover. Qed.
+Print Assumptions C16_mqtt_connect_no_leftover.
+
+Example C16_mqtt_connect_example :
+  snd (mqtt_connect (lit "in") false [false; false; true] mc_init) = ConnTransportError
+  /\ snd (mqtt_connect (lit "in") true [] mc_init) = ConnTransportError
+  /\ snd (mqtt_connect (lit "in") false [] mc_init) = ConnOk
+  /\ List.length (mc_subs (fst (mqtt_connect (lit "in") false [] mc_init))) = 5%nat.
+Proof. vm_compute. repeat split. Qed.
 
 (* the original stop() (CancelledError not suppressed: D13a, repaired by e2e0939) violates it *)
 Theorem C16_unguarded_refuted :
